@@ -61,7 +61,15 @@ def conflicts(a, b):            # interval conflict (true arithmetic): an empty 
 #   waiter-mismatch    parked threads of the dump != threads inside a blocking call
 #   conflict-range     try_lock_wait reported a range that is not (held range ∩ request)
 #   stale-mismatch / protocol   handle liveness / event discipline broken
+_JC = {}
 def judge(case, out):
+    k = (case, out)
+    if k not in _JC:
+        if len(_JC) > 4: _JC.clear()
+        _JC[k] = _judge(case, out)
+    return _JC[k]
+
+def _judge(case, out):
     if out.startswith('CRASH') or out == 'BADCASE' or not out:
         return ('crash', 'implementation crashed / no output: %r' % out[:200])
     try:
@@ -188,7 +196,7 @@ class Check(DiffCheck):
     id = 'C18'
     needs_libphoton = True
     coq_dirs = ['Base', 'C18']
-    coq_targets = ['C18/C18_Proofs.vo']
+    coq_targets = ['C18/C18_Proofs.vo', 'C18/C18_Waiters.vo']
     properties_v = 'C18/C18_Properties.v'
     extract_v = 'C18/C18_Extract.v'
     runner_ml = 'ocaml/C18_run.ml'
@@ -196,9 +204,11 @@ class Check(DiffCheck):
     rule = ('case = op list (try_lock_wait / try_lock_wait2 / lock / unlock(off,len) / unlock(handle) / adjust_range, each by a named '
             'photon thread) run on the real RangeLock inside photon on one vCPU; after every op the completion events (return values, '
             'in order) and m_index with the threads parked on every node are compared with the model. corpus; ALL sequences of <=3 ops '
-            'over offsets 0..3 x lengths 0..2 (51-op alphabet), ALL of 4 ops over a 24-op alphabet, ALL of 5 over a 9-op alphabet, ALL of '
-            '<=2 ops over the 64-bit edge universe {0,1,2^63,2^64-2,2^64-1}; PRNG: 6..14 ops, 2..5 threads, offsets/lengths 0..6, and edge-value '
-            'sequences. non-trivial = two requested ranges intersect, touch, are empty, or saturate')
+            'over offsets 0..3 x lengths 0..2 (51-op alphabet: T/L/U x 12 ranges, unlock(handle 0..2), adjust(#0, 12 ranges)), ALL of 4 ops over a '
+            '17-op alphabet (thorough: 24-op, plus ALL of 4 ops over the 39-op alphabet without adjust), ALL of 5 over a 9-op alphabet, ALL of '
+            '<=2 ops over the 64-bit edge universe {0,1,2^63,2^64-2,2^64-1} (thorough: 3 ops over a 38-op edge alphabet); PRNG: 4..14 ops, '
+            '2..5 threads, offsets/lengths 0..6, all three lock kinds, stale handles, busy threads, and edge-value sequences. '
+            'non-trivial = two requested ranges intersect, touch, are empty, or saturate')
     assumptions = ['theorem guards: offset+length <= 2^64-1 (class of known finding F4 beyond it); length > 0 for ranges released through unlock(offset,length) (F3); '
                    'no adjust_range of an entry that has waiters unless the new range covers the old one (F20)',
                    'handles passed to unlock(handle)/adjust_range name live nodes (anything else is UB in the C++; the harness does not execute it)',
@@ -246,6 +256,8 @@ class Check(DiffCheck):
         AB = [(k, o, l) for k in ('T', 'L', 'U') for (o, l) in RB] + [('H', 0), ('H', 1)] + [('A', '0', o, l) for (o, l) in [(0, 1), (1, 2), (0, 4), (2, 0)]]
         if thorough:
             for s in itertools.product(AB, repeat=4): cs.append(self._seq(s))
+            AA4 = [a for a in AA if a[0] != 'A']
+            for s in itertools.product(AA4, repeat=4): cs.append(self._seq(s))
         else:
             AB2 = [(k, o, l) for k in ('L', 'U') for (o, l) in RB[:5]] + [('T', 1, 2), ('T', 1, 0), ('H', 0), ('H', 1), ('A', '0', 0, 1), ('A', '0', 1, 2), ('A', '0', 0, 4)]
             for s in itertools.product(AB2, repeat=4): cs.append(self._seq(s))
@@ -263,7 +275,7 @@ class Check(DiffCheck):
             AD3 = [(k, o, l) for k in ('L', 'U') for (o, l) in RD3] + [('T', W - 1, 1), ('T', W - 10, 10), ('H', 0), ('A', '0', W - 2, 1), ('A', '0', W - 2, 2), ('A', '0', 0, W - 1)]
             for s in itertools.product(AD3, repeat=3): cs.append(self._seq(s))
         # PRNG
-        nrand = 30000 if not thorough else 400000
+        nrand = 40000 if not thorough else 400000
         for _ in range(nrand):
             cs.append(self._random_case(rng))
         return list(dict.fromkeys(cs))
@@ -303,7 +315,7 @@ class Check(DiffCheck):
                 o, l = rrange()
                 if rng.random() < 0.5 and mine:        # a neighbour of an existing range: grow/shrink by one
                     bo, bl = rng.choice(mine); o = max(0, bo + rng.choice((-1, 0, 0, 1))); l = max(0, bl + rng.choice((-1, 0, 1, 1)))
-                    if o + l >= W: l = W - 1 - o
+                    o = min(o, W - 1); l = min(l, W - 1)
                 ops.append('A,%d,%d,%d,%d' % (t, rng.randrange(0, nacq + 1), o, l))
             else:
                 o, l = rrange(); ops.append('A,%d,-,%d,%d' % (t, o, l))
